@@ -619,6 +619,14 @@ func (ex *Exec) evalBinary(env *Env, x *EBinary) Val {
 	if !isShift && len(a.L) == 1 && len(b.L) == 1 && a.L[0].S != b.L[0].S {
 		sfail("operands of %s have different types: %s vs %s in %s %s %s", x.Op, a.T, b.T, exprStr(x.X), x.Op, exprStr(x.Y))
 	}
+	if isFloatType(a.T) && (op == token.EQL || op == token.NEQ) {
+		// in specifications == on floats is identity of the value (bit pattern), not IEEE comparison
+		e := Eq(a.Term(), b.Term())
+		if op == token.NEQ {
+			e = Not(e)
+		}
+		return scalar(bt, e)
+	}
 	return ex.binop(env.fr, env.st.clone(), op, a, b, rt, token.NoPos)
 }
 
@@ -657,11 +665,32 @@ func (ex *Exec) evalCall(env *Env, x *ECall) Val {
 	}
 	args := x.Args
 	if recv != nil {
-		// method-style call of a spec function, or pkg.Func
+		// pkg.Func(...) : a real Go function of an imported package, evaluated purely
+		if id, ok := recv.(*EIdent); ok && env.pkg != nil {
+			if _, isVar := env.vars[id.Name]; !isVar {
+				for _, imp := range env.pkg.Imports() {
+					if imp.Name() == id.Name {
+						if fn := ex.ld.findFunc(imp.Path(), name); fn != nil {
+							return ex.pureCall(env, fn, ex.evalArgs(env, args, fn, 0))
+						}
+					}
+				}
+			}
+		}
+		// method-style call of a spec function
 		if sf := ex.ld.specFunc(env.pkg, name); sf != nil {
 			args = append([]Expr{recv}, args...)
 		} else {
-			sfail("unknown spec function %s", name)
+			// a real Go method on the receiver's type
+			rv := ex.eval(env, recv)
+			if fn := ex.ld.methodOf(rv.T, name); fn != nil {
+				avs := ex.evalArgs(env, args, fn, 1)
+				if _, isPtr := fn.Params[0].Type().Underlying().(*types.Pointer); !isPtr {
+					rv = ex.deref(env, rv)
+				}
+				return ex.pureCall(env, fn, append([]Val{rv}, avs...))
+			}
+			sfail("unknown spec function or method %s", name)
 		}
 	}
 	switch name {
@@ -766,33 +795,34 @@ func (ex *Exec) evalCall(env *Env, x *ECall) Val {
 	// a real (pure) Go function of the package: inline it on a scratch state
 	if env.pkg != nil {
 		if fn := ex.ld.findFunc(env.pkg.Path(), name); fn != nil {
-			var avs []Val
-			for i, a := range args {
-				v := ex.eval(env, a)
-				if v.Const != nil {
-					v = coerce(v, fn.Params[i].Type())
-				}
-				avs = append(avs, v)
-			}
-			return ex.pureCall(env, fn, avs)
+			return ex.pureCall(env, fn, ex.evalArgs(env, args, fn, 0))
 		}
 	}
 	sfail("unknown function %s in spec", name)
 	return Val{}
 }
 
+func (ex *Exec) evalArgs(env *Env, args []Expr, fn *ssa.Function, skip int) []Val {
+	var avs []Val
+	for i, a := range args {
+		v := ex.eval(env, a)
+		if v.Const != nil {
+			v = coerce(v, fn.Params[i+skip].Type())
+		}
+		avs = append(avs, v)
+	}
+	return avs
+}
+
+// pureCall evaluates a real Go function inside a specification, on a scratch copy of the state.
+// Obligations it would generate are dropped; facts it assumes (trusted specs) are kept.
 func (ex *Exec) pureCall(env *Env, fn *ssa.Function, args []Val) Val {
-	nObs, nAss := len(ex.obs), len(ex.assumptions)
+	nObs := len(ex.obs)
 	st := env.st.clone()
 	st.pc = nil
-	fr := &Frame{fn: fn, regs: map[ssa.Value]Val{}, depth: 1, label: "spec/"}
-	fr.fc = ex.ld.contractFor(fn)
-	for i, p := range fn.Params {
-		fr.regs[p] = args[i]
-	}
-	_, rs := ex.execFunc(fr, st)
+	top := &Frame{fn: ex.top, regs: map[ssa.Value]Val{}, depth: 1, label: "spec/"}
+	rs := ex.callStatic(top, st, fn, args, nil, token.NoPos)
 	ex.obs = ex.obs[:nObs]
-	ex.assumptions = ex.assumptions[:nAss]
 	if len(rs) != 1 {
 		sfail("pure call of %s: %d results", fn.Name(), len(rs))
 	}
